@@ -5,6 +5,6 @@ cSess == << [steps |-> 2, place |-> TRUE, exec |-> FALSE, maxN |-> 2, maxH |-> 1
             [steps |-> 3, place |-> TRUE, exec |-> TRUE, maxN |-> 3, maxH |-> 2, rate |-> 1],
             [steps |-> 1, place |-> FALSE, exec |-> TRUE, maxN |-> 1, maxH |-> 1, rate |-> 2],
             [steps |-> 2, place |-> TRUE, exec |-> TRUE, maxN |-> 2, maxH |-> 1, rate |-> 2] >>
-cPrices == {36, 37, 38, 40, 41, 42, 44}
+cPrices == {36, 37, 40, 43, 44}
 cNoHalt == [on |-> FALSE, targets |-> {}, num |-> 1, den |-> 1, len |-> 0]
 ====
